@@ -9,33 +9,48 @@ import Glom.Py.Val
       `__invert__`/`__neg__` record `None` as their argument)
     * `_t_eval`'s `while i < fetch_till` loop                          → `tLoop`
       (index `i` starts at 1, steps by 2, `arg = arg_val(target, arg, scope)`
-      *before* the branch is chosen, branch chosen by the table `tDispatch`
-      regenerated from the source — kind of operation and the classes its
-      `except` clause names —, `PathAccessError(e, Path(_t), i // 2)`; an op
-      char no branch names falls into the final `else:` whose inner `if` chain
-      matches nothing: the operation is *skipped without any error* — that is
-      the code that exists, and why `c02_no_dropped_op` is an obligation on the
-      tables)
+      INSIDE the loop, *before* the branch is chosen, branch chosen by the table
+      `tDispatch` regenerated from the source — kind of operation and the
+      classes its `except` clause names —, `PathAccessError(e, Path(_t), i // 2)`;
+      an op char no branch names falls into the final `else:` whose inner `if`
+      chain matches nothing: the operation is *skipped without any error* —
+      that is the code that exists, and why `c02_no_dropped_op` is an
+      obligation on the tables)
     * `arg_val` / `_ArgValuator.mode`                                  → `argVal`
-      (a `T` is evaluated by `_t_eval` against the ORIGINAL target, `Spec(T…)`
-      likewise, `list`/`tuple`/`dict` are rebuilt with every member evaluated in
-      argument mode, everything else is passed through literally)
+      (a `T` is evaluated by `_t_eval` against the ORIGINAL target object,
+      `Spec(T…)` likewise, `list`/`tuple`/`dict` are rebuilt with every member
+      evaluated in argument mode, everything else is passed through literally)
     * the `(` branch: `scope[glom](target, Call(cur, args, kwargs), scope)` and
       `Call.glomit`: `r(func)(*r(args), **r(kwargs))` with `r = arg_val(target, ·)`
       — the already evaluated function and arguments go through `arg_val` a
-      SECOND time (`Prim.reval`).
+      SECOND time (`Prim.revalCall`): a `list`/`dict`/`tuple` argument reaches
+      the callee as a rebuilt copy, and a glom spec object stored in the
+      target's data would be evaluated.
+
+  STATE.  Python objects are mutable: a recorded call may change the target
+  (`T['l'].pop()`), and a later nested argument (`… + T['l'][-1]`) reads the
+  target *object* in the state it has then.  So every function here threads a
+  state `s : S` (for the executable instance: the heap) and returns the state
+  it leaves — also when it ends with an exception.  `target : V` is the
+  reference to the target object and never changes; what it denotes is read
+  from the current state by the primitives.  The code that exists calls
+  `arg_val(target, t_path[i+1], scope)` in iteration `i` of the loop, i.e. on
+  the state left by the operations `< i`.  `tLoop` therefore receives the list
+  `avs` of argument *evaluators* (`avs[j] = argVal flat[j] : S → result × S`)
+  and runs `avs[i+1]` on the current state in iteration `i` only — exactly
+  where (and when) the Python loop evaluates it; an error or a state change
+  inside it happens only if the loop gets there.  This keeps `argVal` the only
+  function that recurses through the nesting.
 
   The primitive semantics of attribute access / subscription / arithmetic /
-  calling on values is the parameter `prim : Prim V`; the type `V` of values is
-  a parameter too.  So everything proved about this model is about glom's
-  record-and-replay logic, not about `int.__pow__`.
+  calling on values is the parameter `prim : Prim V S`; the types `V` of values
+  and `S` of states are parameters too.  So everything proved about this model
+  is about glom's record-and-replay logic, not about `int.__pow__` or `list.pop`.
 
-  Lean is pure, so the value of the Python expression
-  `arg_val(target, t_path[i+1], scope)` does not depend on *when* it is
-  evaluated: `tLoop` receives the list `avs` with `avs[j] = argVal flat[j]` and
-  inspects `avs[i+1]` in iteration `i` only, i.e. exactly where the Python loop
-  evaluates it (an error inside it surfaces only if the loop gets there).
-  This keeps `argVal` the only function that recurses through the nesting.
+  A `dict` argument is rebuilt by a dict comprehension: per entry the key is
+  evaluated, then the value, then the pair is inserted — `hash(key)` raises the
+  TypeError for an unhashable key *before* the following entries are evaluated
+  (`entryRun`).
 
   No Mathlib, computable, total.
 -/
@@ -75,21 +90,29 @@ def Kind.ofString (s : String) : Kind :=
 
 /-! ### primitives: Python's own semantics of the operations, a parameter -/
 
-structure Prim (V : Type) where
-  none : V                                             -- the object `None`
-  getattr : V → V → Except PyExc V                     -- getattr(cur, arg)
-  getitem : V → V → Except PyExc V                     -- cur[arg]
-  call : V → List V → List (String × V) → Except PyExc V   -- f(*args, **kwargs)
-  bin : BinOp → V → V → Except PyExc V                 -- cur <op> arg
-  un : UnOp → V → Except PyExc V                       -- <op> cur
-  mkList : List V → V                                  -- list(items)
-  mkTuple : List V → V                                 -- tuple(items)
-  mkDict : List (V × V) → Except PyExc V               -- {k: v, …} (TypeError on an unhashable key)
-  /-- `arg_val(target, v, scope)` applied to an *already evaluated* value `v`
-      (what `Call.glomit` does to the function and every argument): a deep copy
-      of plain data, but a glom spec object stored inside the target's data
-      would be evaluated here. -/
-  reval : V → V → V
+/-- Python's own semantics on values `V` in states `S`.  Every operation
+    returns the state it leaves, also when it raises. -/
+structure Prim (V S : Type) where
+  none : V                                                      -- the object `None`
+  getattr : S → V → V → Except PyExc V × S                      -- getattr(cur, arg)
+  getitem : S → V → V → Except PyExc V × S                      -- cur[arg]
+  call : S → V → List V → List (String × V) → Except PyExc V × S    -- f(*args, **kwargs)
+  bin : BinOp → S → V → V → Except PyExc V × S                  -- cur <op> arg
+  un : UnOp → S → V → Except PyExc V × S                        -- <op> cur
+  mkList : S → List V → V × S                                   -- list(items): a new object
+  mkTuple : S → List V → V × S                                  -- tuple(items)
+  hashKey : S → V → Except PyExc Unit × S                       -- hash(k): TypeError for an unhashable object
+  mkDict : S → List (V × V) → Except PyExc V × S                -- dict(pairs) for keys that have been hashed
+  /-- how a callee receives the function and the arguments of a recorded call,
+      *said without glom's vocabulary*: `list` / `tuple` / `dict` containers are
+      passed by value (rebuilt, members likewise), every other object as it is. -/
+  passCall : S → V → List V → List (String × V) → (V × List V × List (String × V)) × S
+  /-- what `Call.glomit` does: `arg_val(target, ·, scope)` applied to the *already
+      evaluated* function, to the tuple of arguments and to the dict of keyword
+      arguments (three calls, each with its own `_ArgValuator` cache): rebuilds
+      plain containers, but a glom spec object stored inside the target's data
+      would be evaluated here (first argument after the state: the target). -/
+  revalCall : S → V → V → List V → List (String × V) → (V × List V × List (String × V)) × S
 
 /-! ### the objects that sit in `__ops__` -/
 
@@ -134,60 +157,74 @@ def caughtBy (F : Facts) (caught : List String) (e : PyExc) : Bool :=
   caught.any (fun c => F.exc.isSub e.cls c)
 
 /-- the outcome of a `try: cur = <operation> except (caught) as e: pae = PathAccessError(e, …, i // 2)` -/
-def guarded {V} (F : Facts) (caught : List String) (k : Nat) (r : Except PyExc V) : Except Err V :=
+def guardE {V} (F : Facts) (caught : List String) (k : Nat) (r : Except PyExc V) : Except Err V :=
   match r with
   | .ok v => .ok v
   | .error e => if caughtBy F caught e then .error (.pae k e) else .error (.raised e)
 
-/-- one iteration of the dispatch chain of `_t_eval` (`k = i // 2`) -/
-def applyBranch {V} (F : Facts) (prim : Prim V) (target : V) (k : Nat) (op : String)
-    (cur : V) (av : AV V) : Except Err V :=
+/-- the same, with the state the operation leaves -/
+def guarded {V S} (F : Facts) (caught : List String) (k : Nat) (r : Except PyExc V × S) :
+    Except Err V × S :=
+  (guardE F caught k r.1, r.2)
+
+/-- one iteration of the dispatch chain of `_t_eval` (`k = i // 2`) in state `s` -/
+def applyBranch {V S} (F : Facts) (prim : Prim V S) (target : V) (k : Nat) (op : String)
+    (s : S) (cur : V) (av : AV V) : Except Err V × S :=
   match dispatchOf F op with
-  | none => .ok cur     -- the final `else:`; none of its inner `if op == …` matches: `cur` is left as it is
+  | none => (.ok cur, s)  -- the final `else:`; none of its inner `if op == …` matches: `cur` is left as it is
   | some (ks, caught) =>
     match Kind.ofString ks, av with
-    | .getattr, .val a => guarded F caught k (prim.getattr cur a)
-    | .getitem, .val a => guarded F caught k (prim.getitem cur a)
-    | .bin b, .val a => guarded F caught k (prim.bin b cur a)
-    | .un u, .val _ => guarded F caught k (prim.un u cur)
+    | .getattr, .val a => guarded F caught k (prim.getattr s cur a)
+    | .getitem, .val a => guarded F caught k (prim.getitem s cur a)
+    | .bin b, .val a => guarded F caught k (prim.bin b s cur a)
+    | .un u, .val _ => guarded F caught k (prim.un u s cur)
     | .call, .call args kwargs =>
       -- scope[glom](target, Call(cur, args, kwargs), scope); Call.glomit: r(func)(*r(args), **r(kwargs))
       guarded F caught k
-        (prim.call (prim.reval target cur) (args.map (prim.reval target))
-          (kwargs.map (fun p => (p.1, prim.reval target p.2))))
-    | _, _ => .error .unsupported
+        (prim.call (prim.revalCall s target cur args kwargs).2
+          (prim.revalCall s target cur args kwargs).1.1
+          (prim.revalCall s target cur args kwargs).1.2.1
+          (prim.revalCall s target cur args kwargs).1.2.2)
+    | _, _ => (.error .unsupported, s)
+
+/-- an evaluation that reads and may change the state -/
+abbrev Run (S ε α : Type) := S → Except ε α × S
 
 /-- the `while i < fetch_till` loop of `_t_eval` on the flat ops tuple;
-    `avs[j]` is the value of `arg_val(target, flat[j], scope)` -/
-def tLoop {V} (F : Facts) (prim : Prim V) (flat : List (Obj V)) (avs : List (Except Err (AV V)))
-    (target : V) (i : Nat) (cur : V) : Except Err V :=
+    `avs[j]` evaluates `arg_val(target, flat[j], scope)` in the state it is given -/
+def tLoop {V S} (F : Facts) (prim : Prim V S) (flat : List (Obj V))
+    (avs : List (Run S Err (AV V))) (target : V) (i : Nat) (s : S) (cur : V) : Except Err V × S :=
   if _hlt : i < flat.length then
     match flat[i]?, avs[i+1]? with
-    | some (.opc op), some rav =>
-      match rav with
-      | .error e => .error e                    -- raised by arg_val: outside every `try`
-      | .ok av =>
-        match applyBranch F prim target (i / 2) op cur av with
-        | .ok v => tLoop F prim flat avs target (i + 2) v
-        | .error e => .error e
-    | _, _ => .error .unsupported
-  else .ok cur
+    | some (.opc op), some ev =>
+      match ev s with                             -- arg = arg_val(target, arg, scope): now, in state `s`
+      | (.error e, s1) => (.error e, s1)          -- raised by arg_val: outside every `try`
+      | (.ok av, s1) =>
+        match applyBranch F prim target (i / 2) op s1 cur av with
+        | (.ok v, s2) => tLoop F prim flat avs target (i + 2) s2 v
+        | (.error e, s2) => (.error e, s2)
+    | _, _ => (.error .unsupported, s)
+  else (.ok cur, s)
 termination_by flat.length - i
 
 /-- `_t_eval(target, _t, scope)` for the ops tuple `flat` -/
-def tRun {V} (F : Facts) (prim : Prim V) (flat : List (Obj V)) (avs : List (Except Err (AV V)))
-    (target : V) : Except Err V :=
+def tRun {V S} (F : Facts) (prim : Prim V S) (flat : List (Obj V)) (avs : List (Run S Err (AV V)))
+    (target : V) (s : S) : Except Err V × S :=
   match flat with
-  | .root "T" :: _ => tLoop F prim flat avs target 1 target
-  | _ => .error .unsupported       -- S / A roots read the scope (C07)
+  | .root "T" :: _ => tLoop F prim flat avs target 1 s target
+  | _ => (.error .unsupported, s)       -- S / A roots read the scope (C07)
 
-/-- all results, or the first error (evaluation order of a comprehension) -/
-def seqAll {ε α} : List (Except ε α) → Except ε (List α)
-  | [] => .ok []
-  | .error e :: _ => .error e
-  | .ok a :: r => match seqAll r with
-    | .ok l => .ok (a :: l)
-    | .error e => .error e
+/-- run the evaluations one after the other, each in the state the previous one
+    left; all results, or the first error (evaluation order of a comprehension) -/
+def seqRun {S ε α} : List (Run S ε α) → Run S ε (List α)
+  | [], s => (.ok [], s)
+  | f :: r, s =>
+    match f s with
+    | (.error e, s1) => (.error e, s1)
+    | (.ok a, s1) =>
+      match seqRun r s1 with
+      | (.ok l, s2) => (.ok (a :: l), s2)
+      | (.error e, s2) => (.error e, s2)
 
 def asVal {V} : AV V → Except Err V
   | .val v => .ok v
@@ -198,30 +235,47 @@ def valOfRes {V} (r : Except Err (AV V)) : Except Err V :=
   | .ok av => asVal av
   | .error e => .error e
 
-def kwOfRes {V} (k : String) (r : Except Err (AV V)) : Except Err (String × V) :=
-  match valOfRes r with
-  | .ok v => .ok (k, v)
-  | .error e => .error e
+def valOfRun {V S} (f : Run S Err (AV V)) : Run S Err V :=
+  fun s => (valOfRes (f s).1, (f s).2)
 
-def valsOf {V} (rs : List (Except Err (AV V))) : Except Err (List V) :=
-  seqAll (rs.map valOfRes)
+def kwOfRun {V S} (k : String) (f : Run S Err (AV V)) : Run S Err (String × V) :=
+  fun s => (match valOfRes (f s).1 with
+    | .ok v => .ok (k, v)
+    | .error e => .error e, (f s).2)
+
+def valsOf {V S} (rs : List (Run S Err (AV V))) : Run S Err (List V) :=
+  seqRun (rs.map valOfRun)
 
 def pairOpt {α β} (a : Option α) (b : Option β) : Option (α × β) :=
   match a, b with
   | some x, some y => some (x, y)
   | _, _ => none
 
-def pairUp {ε α β} (a : Except ε α) (b : Except ε β) : Except ε (α × β) :=
-  match a with
-  | .error e => .error e
-  | .ok x => match b with
-    | .error e => .error e
-    | .ok y => .ok (x, y)
+/-- key, then value (one entry of a dict comprehension) -/
+def pairRun {S ε α β} (a : Run S ε α) (b : Run S ε β) : Run S ε (α × β) :=
+  fun s =>
+    match a s with
+    | (.error e, s1) => (.error e, s1)
+    | (.ok x, s1) =>
+      match b s1 with
+      | (.error e, s2) => (.error e, s2)
+      | (.ok y, s2) => (.ok (x, y), s2)
 
 def liftExc {V} (r : Except PyExc V) : Except Err V :=
   match r with
   | .ok v => .ok v
   | .error e => .error (.raised e)
+
+/-- one entry of `{recur(key): recur(val) for key, val in spec.items()}`: key, value, then
+    MAP_ADD hashes the key (outside every `try` of `_t_eval`) -/
+def entryRun {V S} (prim : Prim V S) (k v : Run S Err V) : Run S Err (V × V) :=
+  fun s =>
+    match pairRun k v s with
+    | (.error e, s1) => (.error e, s1)
+    | (.ok kv, s1) =>
+      match (prim.hashKey s1 kv.1).1 with
+      | .ok _ => (.ok kv, (prim.hashKey s1 kv.1).2)
+      | .error e => (.error (.raised e), (prim.hashKey s1 kv.1).2)
 
 
 /-! ### termination of recursion through the nested lists -/
@@ -247,50 +301,52 @@ macro "nested_dec" : tactic => `(tactic| (
   | (have := sizeOf_snd_lt_of_mem ‹_ ∈ _›; omega)
   | (have := sizeOf_fst_lt_of_mem ‹_ ∈ _›; omega)))
 
-/-- `arg_val(target, o, scope)` -/
-def argVal {V} (F : Facts) (prim : Prim V) (target : V) : Obj V → Except Err (AV V)
-  | .lit v => .ok (.val v)
-  | .opc _ => .error .unsupported
-  | .root _ => .error .unsupported
-  | .tt flat =>
-    match tRun F prim flat (flat.map (fun a => argVal F prim target a)) target with
-    | .ok v => .ok (.val v)
-    | .error e => .error e
+/-- `arg_val(target, o, scope)`: an evaluation in the state current when it is run -/
+def argVal {V S} (F : Facts) (prim : Prim V S) (target : V) : Obj V → Run S Err (AV V)
+  | .lit v => fun s => (.ok (.val v), s)
+  | .opc _ => fun s => (.error .unsupported, s)
+  | .root _ => fun s => (.error .unsupported, s)
+  | .tt flat => fun s =>
+    match tRun F prim flat (flat.map (fun a => argVal F prim target a)) target s with
+    | (.ok v, s1) => (.ok (.val v), s1)
+    | (.error e, s1) => (.error e, s1)
   | .spec inner =>
     match inner with
     | .tt ops => argVal F prim target (.tt ops)   -- Spec.glomit → scope[glom](target, self.spec, scope) → _t_eval
-    | _ => .error .unsupported                 -- a Spec of anything else is evaluated by AUTO (C03)
-  | .list xs =>
-    match valsOf (xs.map (fun a => argVal F prim target a)) with
-    | .ok vs => .ok (.val (prim.mkList vs))
-    | .error e => .error e
-  | .tuple xs =>
-    match valsOf (xs.map (fun a => argVal F prim target a)) with
-    | .ok vs => .ok (.val (prim.mkTuple vs))
-    | .error e => .error e
-  | .dict es =>
-    match seqAll (es.map (fun p =>
-        pairUp (valOfRes (argVal F prim target p.1)) (valOfRes (argVal F prim target p.2)))) with
-    | .ok kvs => match liftExc (prim.mkDict kvs) with
-      | .ok v => .ok (.val v)
-      | .error e => .error e
-    | .error e => .error e
-  | .cargs args kwargs =>
-    match valsOf (args.map (fun a => argVal F prim target a)) with
-    | .error e => .error e
-    | .ok as =>
-      match seqAll (kwargs.map (fun p => kwOfRes p.1 (argVal F prim target p.2))) with
-      | .ok ks => .ok (.call as ks)
-      | .error e => .error e
+    | _ => fun s => (.error .unsupported, s)      -- a Spec of anything else is evaluated by AUTO (C03)
+  | .list xs => fun s =>
+    match valsOf (xs.map (fun a => argVal F prim target a)) s with
+    | (.ok vs, s1) => (.ok (.val (prim.mkList s1 vs).1), (prim.mkList s1 vs).2)
+    | (.error e, s1) => (.error e, s1)
+  | .tuple xs => fun s =>
+    match valsOf (xs.map (fun a => argVal F prim target a)) s with
+    | (.ok vs, s1) => (.ok (.val (prim.mkTuple s1 vs).1), (prim.mkTuple s1 vs).2)
+    | (.error e, s1) => (.error e, s1)
+  | .dict es => fun s =>
+    match seqRun (es.map (fun p =>
+        entryRun prim (valOfRun (argVal F prim target p.1)) (valOfRun (argVal F prim target p.2)))) s with
+    | (.ok kvs, s1) =>
+      match liftExc (prim.mkDict s1 kvs).1 with
+      | .ok v => (.ok (.val v), (prim.mkDict s1 kvs).2)
+      | .error e => (.error e, (prim.mkDict s1 kvs).2)
+    | (.error e, s1) => (.error e, s1)
+  | .cargs args kwargs => fun s =>
+    match valsOf (args.map (fun a => argVal F prim target a)) s with
+    | (.error e, s1) => (.error e, s1)
+    | (.ok as, s1) =>
+      match seqRun (kwargs.map (fun p => kwOfRun p.1 (argVal F prim target p.2))) s1 with
+      | (.ok ks, s2) => (.ok (.call as ks), s2)
+      | (.error e, s2) => (.error e, s2)
 termination_by o => sizeOf o
 decreasing_by all_goals nested_dec
 
-/-- `glom(target, t)` for a `TType` object `t` -/
-def tEval {V} (F : Facts) (prim : Prim V) (o : Obj V) (target : V) : Except Err V :=
-  match argVal F prim target o with
-  | .ok (.val v) => .ok v
-  | .ok (.call _ _) => .error .unsupported
-  | .error e => .error e
+/-- `glom(target, t)` for a `TType` object `t`, started in state `s`: the outcome
+    and the state it leaves (the target object is read from that state) -/
+def tEval {V S} (F : Facts) (prim : Prim V S) (o : Obj V) (target : V) (s : S) : Except Err V × S :=
+  match argVal F prim target o s with
+  | (.ok (.val v), s1) => (.ok v, s1)
+  | (.ok (.call _ _), s1) => (.error .unsupported, s1)
+  | (.error e, s1) => (.error e, s1)
 
 /-! ### recording: the user-level expression and the TType overloads -/
 
